@@ -18,7 +18,8 @@ ASSUMPTIONS = ['relations (i)-(iv) hold to round-off: tolerance 1e-9 x scale (ob
                '(v) interstitial only, tolerance 1e-9: any displacement of a site inside the cell gives the site a non-zero vector '
                'basis, and for the vacancy calculator that regime is covered by known finding F10; displaced crystals keep the '
                'lattice-form jumps; jumps are re-classified under the (lower) symmetry of the displaced crystal',
-               'shifts |c| <= 3, scalings f in [0.2, 5], lambda in [0.5, 2]']
+               'shifts |c| <= 3, scalings f in [0.2, 5] (interstitial rate scalings also log-uniform in 1e-18..1e3, and base barriers shifted by 0/12/25/40 kT: '
+               'absolute rates down to 1e-18), lambda in [0.5, 2]']
 REQUIRED_OBS = {'eval:C04:inter:shift': 20, 'eval:C04:inter:prefactor': 20, 'eval:C04:inter:ratescale': 20,
                 'eval:C04:inter:displace': 15, 'eval:C04:vac:shiftV:Lss': 10, 'eval:C04:vac:shiftS:Lss': 10,
                 'eval:C04:vac:prefactor:Lss': 10, 'eval:C04:vac:kT:Lss': 10, 'eval:C04:vac:ratescale:Lss': 10}
@@ -81,10 +82,10 @@ def run_inter(case, mon):
             dt = lambda: str(w['desc'])
             c = float(rng.uniform(-3, 3))
             mon.close(diff.diffusivity(pre, bE + c, preT, bET + c), D, 1e-9, 'C04:inter:shift', dt, scale=sc)
-            f = float(rng.uniform(0.2, 5))
+            f = float(np.exp(rng.uniform(np.log(1e-18), np.log(1e3)))) if rng.uniform() < 0.5 else float(rng.uniform(0.2, 5))
             mon.close(diff.diffusivity(pre * f, bE, preT * f, bET), D, 1e-9, 'C04:inter:prefactor', dt, scale=sc)
-            mon.close(diff.diffusivity(pre, bE, preT * f, bET), D * f, 1e-9, 'C04:inter:ratescale', dt, scale=sc * max(f, 1))
-            mon.close(diff.diffusivity(pre, bE, preT, bET - np.log(f)), D * f, 1e-9, 'C04:inter:ratescale-energy', dt, scale=sc * max(f, 1))
+            mon.close(diff.diffusivity(pre, bE, preT * f, bET), D * f, 1e-9, 'C04:inter:ratescale', dt, scale=sc * f)
+            mon.close(diff.diffusivity(pre, bE, preT, bET - np.log(f)), D * f, 1e-9, 'C04:inter:ratescale-energy', dt, scale=sc * f)
             for r in ('shift', 'prefactor', 'ratescale'): mon.sig(['inter', case['idx'], k, r])
             # (v) displacement of the diffusing sites
             basis2 = [[u.copy() for u in lst] for lst in crys.basis]
